@@ -287,8 +287,16 @@ func (ex *Exec) callExternal(fr *Frame, name string, sig *types.Signature, recv 
 		return one(ex.wrapErr(st, base))
 	case short == "errors.Is":
 		DeclareUF("err_root", []*Sort{SErr}, SErr)
-		a := ex.asTerm(st, args[0], types.Universe.Lookup("error").Type())
-		b := ex.asTerm(st, args[1], types.Universe.Lookup("error").Type())
+		toErr := func(v Val) *Term {
+			if t, ok := v.(*Term); ok && t.Sort == SErr {
+				return t
+			}
+			if t, ok := v.(*Term); ok {
+				return ex.errOf(st, t, "isarg")
+			}
+			return ex.asTerm(st, v, types.Universe.Lookup("error").Type())
+		}
+		a, b := toErr(args[0]), toErr(args[1])
 		return one(And(Neq(a, ErrNil), Eq(App("err_root", a), App("err_root", b))))
 	case strings.HasPrefix(short, "fmt.Sprint"):
 		// a deterministic function of the format and the arguments (when their number is known)
